@@ -655,4 +655,20 @@ def exSt : St := { impls := [(1, exImpl)], next := 6, G := [(0, { obj := 100, fl
 
 def exProg : Prog := { bodies := [], top := [] }
 
+/-- `exSt` after functor 7 (cell 2) was invoked with argument 5 -/
+def exSt2 : St := exSt.log (.call 0 7 5)
+
+/-- first dereference of cell 2 of `exSt` -/
+theorem exDeref2 : deref 2 exProg exSt 1 { pos := 2 } 5
+    = some (exSt2, .ok, { pos := 2, invoked := true, buf := 75 }) := by
+  rw [deref]
+  have hx : invokeFun 1 exProg exSt (.leaf 7 []) 5 = some (exSt2, .ok, 75) := invokeFun_leaf_nobody 0 exProg exSt 7 5 [] rfl
+  have hi : aget exSt.impls 1 = some exImpl := rfl
+  have hc : exImpl.cells.find? (·.id = ({ pos := 2 } : IterBuf).pos) = some (exCell 2 7 false) := rfl
+  simp only [hi, hc]
+  simp [exCell, hx]
+
+/-- a program whose functor 7 throws -/
+def exProgT : Prog := { bodies := [(7, [{ text := "throw", op := .throw_ }])], top := [] }
+
 end Sigc.StepIter
